@@ -1,6 +1,61 @@
-(* C12 — symbol dictionary keys stay valid forever.  Headline theorems only. *)
+(* C12 — symbol dictionary keys stay valid forever.  Headline theorems only.
+   Size hypotheses: tr_weight = number of nodes + label bytes of the trie, ops_weight = sum over the
+   puts of (name length + 2); "< 2^63" is what Dict.Get's signed comparisons need. *)
 From Pyro Require Import Model.Base Model.Varint Model.Dict Proofs.DictProofs.
 
+(* findNodeAt terminates: the fuel of the model's loop is never exhausted *)
 Theorem C12_put_total : forall name t, d_put_opt name t <> None.
 Proof. exact d_put_opt_some. Qed.
 Print Assumptions C12_put_total.
+
+(* the key returned by Put decodes to the name *)
+Theorem C12_dict_put_get : forall name t k t',
+  tr_weight t + Nlen name < two63 -> d_put name t = (k, t') -> d_get k t' = Some name.
+Proof. exact dict_put_get. Qed.
+Print Assumptions C12_dict_put_get.
+
+(* over ANY history of puts and save/reload events before and after, a key once returned decodes to its
+   name in every later state (ops2 is arbitrary, so "every later state" is every prefix of any future) *)
+Theorem C12_dict_stable : forall t0 ops1 name ops2 k t1,
+  tr_weight t0 + ops_weight (ops1 ++ OPut name :: ops2) < two63 ->
+  d_put name (fold_left d_step ops1 t0) = (k, t1) ->
+  d_get k (fold_left d_step ops2 t1) = Some name.
+Proof. exact dict_stable. Qed.
+Print Assumptions C12_dict_stable.
+
+(* putting the same name again, after any history, returns a key that decodes to the same name, and
+   the key returned the first time still does *)
+Theorem C12_dict_put_same : forall t0 ops1 name ops2 ops3 k1 t1 k2 t2,
+  tr_weight t0 + ops_weight (ops1 ++ OPut name :: ops2 ++ OPut name :: ops3) < two63 ->
+  d_put name (fold_left d_step ops1 t0) = (k1, t1) ->
+  d_put name (fold_left d_step ops2 t1) = (k2, t2) ->
+  d_get k2 (fold_left d_step ops3 t2) = Some name /\ d_get k1 (fold_left d_step ops3 t2) = Some name.
+Proof. exact dict_put_same. Qed.
+Print Assumptions C12_dict_put_same.
+
+(* Deserialize (Serialize t) = t, for every trie whose lengths fit a uvarint (in particular for every
+   well-formed one: the hypothesis asked for in DESIGN.md — non-empty labels, distinct first bytes — is
+   not needed for the round trip) *)
+Theorem C12_dict_codec_roundtrip : forall t, tr_weight t < 2 ^ 64 -> d_deserialize (d_serialize t) = Some t.
+Proof. exact dict_codec_roundtrip. Qed.
+Print Assumptions C12_dict_codec_roundtrip.
+
+(* tries reachable from New by Put / reload are well-formed (non-empty labels, distinct first bytes
+   among siblings): the situation in which the Go code would index an empty label cannot arise *)
+Theorem C12_put_wf : forall name t, tr_wfb t = true -> tr_wfb (snd (d_put name t)) = true.
+Proof. exact d_put_wf. Qed.
+Print Assumptions C12_put_wf.
+
+(* a concrete history with a split on the path of an earlier key, a reload, and a repeated name *)
+Example C12_nonvacuous :
+  let ops1 := [OPut [97;98;99]; OReload] in
+  let ops2 := [OPut [97;98;100]; OReload; OPut [97]; OPut []; OPut [98]] in
+  let ops3 := [OReload; OPut [97;98;99;100]] in
+  let name := [97;98;99] in
+  let '(k1, t1) := d_put name (fold_left d_step ops1 d_new) in
+  let '(k2, t2) := d_put name (fold_left d_step ops2 t1) in
+  (tr_weight d_new + ops_weight (ops1 ++ OPut name :: ops2 ++ OPut name :: ops3) <? two63) = true /\
+  k1 = [0; 3] /\ k2 = [0; 1; 0; 1; 0; 1] /\
+  tr_wfb (fold_left d_step ops3 t2) = true /\
+  d_get k1 (fold_left d_step ops3 t2) = Some name /\ d_get k2 (fold_left d_step ops3 t2) = Some name.
+Proof. vm_compute. repeat split. Qed.
